@@ -34,7 +34,7 @@ type ConcCase struct {
 	// every pool (ClaimAffinity on the pool CIDRs), fault-free.  This makes latent inconsistencies
 	// (for example a confirmed affinity whose block is gone) collide with a new owner.
 	Epilogue bool
-	Tracker     TrackerOpts
+	Tracker  TrackerOpts
 	// Oracles applied after each run.
 	CheckReturned bool // returned addresses were recorded under the caller's handle by the caller's own write
 	CheckLin      bool // per-address porcupine check
